@@ -293,7 +293,8 @@ class Report:
         self.prop = prop
         self.violations = []      # (key, what, files)
         self.known = []
-        shutil.rmtree(os.path.join(REPLAYS, prop), ignore_errors=True)
+        if not os.environ.get("VERIF_KEEP_REPLAYS"):
+            shutil.rmtree(os.path.join(REPLAYS, prop), ignore_errors=True)
 
     def violation(self, key, what, files=None):
         f = known_finding(self.prop, key)
@@ -304,6 +305,10 @@ class Report:
             self.violations.append((key, what, files or {}))
 
     def finish(self):
+        rk = os.environ.get("VERIF_REPLAY_KEY")
+        if rk:          # replay: only the recorded case matters
+            self.violations = [v for v in self.violations if v[0] == rk]
+            self.known = [k for k in self.known if k[0] == rk]
         for key, what in self.known:
             print("KNOWN-FINDING: property=%s %s [%s]" % (self.prop, what, key), flush=True)
         if not self.violations:
